@@ -217,7 +217,7 @@ func c08(e *Env) {
 
 func c09(e *Env) {
 	c := e.C
-	c.Explanation = "Wiring: in every accepting path of every decodeOne the token name's constant value equals the name of the struct field written, the field is declared at the decoder's own level, and the path's write set is exactly {that field, names[name]}; no path's outcome depends on a metric field set by another token (order independence); the v3 constructors default every optional metric to the constant whose code is X and the v2 constructors to the unknown constant with an empty names set; the v3 temporal/environmental names sets are read only by the duplicate test (so explicit X and omission are indistinguishable); Ver is assigned GetVersion's result in all three v3 Decodes. Which enumeration constant a written code denotes is only observable through what the constant prints as and what it weighs: the value stored is the parser's result for the written code, that result prints as the same code (parse, code-table) and carries the specification's weight for that code (weight) - two codes swapped in a table would otherwise store, for each of them, the other one's value."
+	c.Explanation = "Wiring: in every accepting path of every decodeOne the token name's constant value equals the name of the struct field written, the field is declared at the decoder's own level, and the path's write set is exactly {that field, names[name]}; no path's outcome depends on a metric field set by another token (order independence); the v3 constructors default every optional metric to the constant whose code is X and the v2 constructors to the unknown constant with an empty names set; the v3 temporal/environmental names sets are read only by the duplicate test (so explicit X and omission are indistinguishable); Ver is assigned GetVersion's result in all three v3 Decodes. Which enumeration constant a written code denotes is only observable through what the constant prints as and what it weighs: the value stored is the parser's result for the written code, that result prints as the same code (parse, code-table) carries the specification's weight for that code (weight) and answers the type's predicates as that code must (validity: IsDefined exactly for the codes other than Not Defined, IsValid/IsUnknown for every code) - two codes swapped in a table would otherwise store, for each of them, the other one's value (with equal weights, as for the v2 CDP codes N and ND, only the predicates tell them apart)."
 	c.Trusted = []string{"go/types + go/ssa", "block-local store-to-load forwarding in the term builder"}
 	for _, v := range []*spec.Version{&spec.V3, &spec.V2} {
 		ls, _ := e.decoderAnalysis(v)
@@ -232,7 +232,7 @@ func c09(e *Env) {
 		// "holds" is meant for as long as the object is used: the fields a decoder stored must have no other writer
 		e.writeOwnership(v, ls)
 	}
-	e.keepRules("write-ownership", "group-emptiness", "struct-layout", "wiring", "arm-writes", "arm-value", "arm-parser", "order-independence", "constructor-default", "constructor-fresh", "names-readers", "version-recorded", "duplicate-mark", "level-names", "decode-one", "delegation-first", "parse", "code-table", "weight")
+	e.keepRules("write-ownership", "group-emptiness", "struct-layout", "wiring", "arm-writes", "arm-value", "arm-parser", "order-independence", "constructor-default", "constructor-fresh", "names-readers", "version-recorded", "duplicate-mark", "level-names", "decode-one", "delegation-first", "parse", "code-table", "weight", "validity")
 	c.Floor("wiring", 36)
 	c.Floor("constructor-default", 36)
 	c.Floor("version-recorded", 3)
@@ -260,6 +260,7 @@ func c10(e *Env) {
 			// "X when undefined": a metric the vector does not write is spelled X only if the constructor starts it
 			// as Not Defined
 			e.constructorDefaults(l, "constructor-default")
+			e.constructorFresh(l, "constructor-fresh")
 			// "decoding the encoding yields an object with the same fields": Encode prints field N under name N
 			// (encode-emission) and the decoder stores the token named N in field N (wiring)
 			e.armRules(l, e.modelDecodeOne(l, "decode-one"))
@@ -271,7 +272,7 @@ func c10(e *Env) {
 	e.versionTables()
 	c.Floor("canonical-order", 3)
 	c.Floor("write-ownership", 36)
-	e.keepRules("write-ownership", "names-readers", "encode-order", "encode-emission", "encode-guard", "encode-emissions", "encode-error", "encode-nil", "string-is-encode", "code-table", "parse", "canonical-order", "version-table", "version-prefix", "constructor-default", "wiring", "arm-parser",
+	e.keepRules("write-ownership", "names-readers", "encode-order", "encode-emission", "encode-guard", "encode-emissions", "encode-error", "encode-nil", "string-is-encode", "code-table", "parse", "canonical-order", "version-table", "version-prefix", "constructor-default", "constructor-fresh", "wiring", "arm-parser",
 		// decode-encode-decode: the encoding of an accepted vector must be accepted again - no token of a canonical
 		// vector may be refused for a reason the specification does not name (an arm testing against the wrong constant)
 		"arm-value", "reject-path")
